@@ -84,12 +84,21 @@ def asarray (x : X) : X := x
 def squeeze (x : X) : X := x
 end ops
 
+/-- `x <= y` for array elements; an element that is NaN (`none`, e.g. the diagonal of ELECTRE's index matrices) compares false -/
+class HLe (a b : Type) where
+  le : a → b → Bool
+instance {α : Type} [LE α] [DecidableRel (α := α) (· ≤ ·)] : HLe α α := ⟨fun x y => decide (x ≤ y)⟩
+instance {α : Type} [LE α] [DecidableRel (α := α) (· ≤ ·)] : HLe (Option α) α :=
+  ⟨fun x y => match x with | some v => decide (v ≤ y) | none => false⟩
+instance {α : Type} [LE α] [DecidableRel (α := α) (· ≤ ·)] : HLe α (Option α) :=
+  ⟨fun x y => match y with | some v => decide (x ≤ v) | none => false⟩
+
 section logic
 variable {X Y : Type} {a : Type} {S : Type → Type}
 def logical_and [Bc X Y Bool Bool S] (x : X) (y : Y) : S Bool := Bc.zw (· && ·) x y
 def logical_or [Bc X Y Bool Bool S] (x : X) (y : Y) : S Bool := Bc.zw (· || ·) x y
-def less_equal [Bc X Y a a S] [LE a] [DecidableRel (α := a) (· ≤ ·)] (x : X) (y : Y) : S Bool :=
-  Bc.zw (fun p q => decide (p ≤ q)) x y
+def less_equal {b : Type} [Bc X Y a b S] [HLe a b] (x : X) (y : Y) : S Bool := Bc.zw HLe.le x y
+def logical_not [Mp X Bool S] (x : X) : S Bool := Mp.mp (fun p => !p) x
 /-- `mask.astype(int)`: `True → 1`, `False → 0`; kept as the boolean array, whose product with a number is the same -/
 def astype_int (x : X) : X := x
 end logic
